@@ -194,6 +194,16 @@ def standin(rep: Report, prop="C09"):
             srcs.append(L.format(ln))
     srcs += [s for s in pool.PY_STMTS if "f'" not in s and 'f"' not in s]
     srcs += ["if a:\n  b\n c\n", "if a:\n\tb\n        c\n", "if a:\n        b\n\tc\n", "  x\n", "x\n  y\n", "if a:\n  b\n   c\n  d\n", "a\n\n\n", "", "\n", "# c", "x = 1 \\\n", "'''a", "(\n"]
+    # strings continued with a backslash at the end of the physical line, under both newline conventions, at several nesting depths;
+    # inputs that end without a newline after a comment / inside indentation / after a multi-line string
+    for nl in ("\n", "\r\n"):
+        for q in ("'", '"'):
+            for pre in ("", "b", "r"):
+                srcs.append(f"x = {pre}{q}some line \\{nl}more{q}{nl}")
+                srcs.append(f"def f():{nl}    y = {pre}{q}a\\{nl}b\\{nl}c{q}{nl}    return y{nl}z = 1{nl}")
+                srcs.append(f"v = [{pre}{q}one\\{nl}two{q}, 2]{nl}")
+        srcs.append(f"if x:{nl}    y = (1 + \\{nl}2){nl}z{nl}")
+    srcs += ["x = '''\n#'''", "x = '''\n#'''\n", "x = 1\n# c", "x = 1\n    # c", "if a:\n  b\n# c", "x = [1,\n#c\n2]", "x = 1 # c", "if a:\n  b # c", "x\n  ", "if a:\n  b\n  ", "x\n\t"]
     srcs = list(dict.fromkeys(srcs))
     a = oracle.run("tokens", [{"src": s} for s in srcs])
     b = oracle.run("pytokens", [{"src": s} for s in srcs])
